@@ -13,6 +13,7 @@ mod engine;
 mod histx;
 mod imgdec;
 mod plans;
+mod plans2;
 mod proofx;
 mod refmodel;
 mod util;
@@ -34,7 +35,7 @@ pub fn extra_evidence(_prop: &str, _tier: &str) -> Option<Value> {
 
 fn make_engine(prop: &str) -> Option<Box<dyn Engine>> {
     match prop {
-        "C01" | "C02" | "C16" | "C19" => Some(Box::new(histx::HistX::new())),
+        "C01" | "C02" | "C05" | "C06" | "C09" | "C10" | "C11" | "C12" | "C13" | "C16" | "C19" => Some(Box::new(histx::HistX::new())),
         "C03" | "C04" | "C14" | "C17" => Some(Box::new(crashx::CrashX::new())),
         "C07" | "C08" | "C18" => Some(Box::new(proofx::ProofX::new())),
         _ => None,
